@@ -152,7 +152,11 @@ func (c *MemoryCache[MetadataT]) Get(key CacheKey) (*Entry[MetadataT], error) {
 
 func (c *MemoryCache[MetadataT]) cacheInternal(key CacheKey, data io.Reader, expires time.Time, metadata MetadataT, evictIfFull bool) (*Entry[MetadataT], error) {
 	maxCacheSize := c.maxCacheSize.Get()
-	limit := min(maxCacheSize, c.memoryCap)
+	// memoryCap is written under c.mu by the memory budget subscriber.
+	c.mu.RLock()
+	memoryCap := c.memoryCap
+	c.mu.RUnlock()
+	limit := min(maxCacheSize, memoryCap)
 
 	if c.byteSize.Get() >= limit {
 		if evictIfFull {
